@@ -118,7 +118,7 @@ def render_expr(e, st: Style, dot_follows=False):
         return num_text(e["n"], e["d"], st, followed_by_dot=dot_follows), L_ATOM
     if k == "var":
         v = e["v"]
-        if "(" in v:  # THETA(1), ETA(2), EPS(1)
+        if "(" in v:  # THETA(1), ETA(2), EPS(1), A(1)
             head, idx = v[:-1].split("(")
             if head == "EPS" and st.chance(0.2):
                 head = "ERR"
@@ -282,12 +282,37 @@ def render_advan_model(case, st: Style, datapath, input_cols):
     trans = f" TRANS{case['trans']}"
     if case["trans"] == 1 and case.get("omit_trans1"):
         trans = ""
+    extra = ""
+    if case.get("comps"):
+        if case["advan"] in (6, 8, 9, 13):
+            trans += " TOL=" + st.pick(["9", "6"])
+        items = []
+        for c in case["comps"]:
+            opts = []
+            if c["defdose"]:
+                opts.append(st.pick(["DEFDOSE", "DEFDOSE", "DEFD"]))
+            if c["defobs"]:
+                opts.append(st.pick(["DEFOBSERVATION", "DEFOBS", "DEFOBS"]))
+            if c["nodose"]:
+                opts.append("NODOSE")
+            if st.chance(0.4):
+                st.rng.shuffle(opts)
+            kw = st.pick(["COMP", "COMPARTMENT", "COMP"])
+            eq = st.pick(["=", "=", " = "])
+            items.append(f"{kw}{eq}({c['name']}{''.join(' ' + o for o in opts)})")
+        sep = "\n       " if st.chance(0.4) else " "
+        extra = "$MODEL " + sep.join(items) + "\n"
+    des = ""
+    if case.get("des"):
+        des = "$DES\n" + "\n".join(render_code(case["des"], st)) + "\n"
     return (
         f"$PROBLEM C01 advan case {case['id']}\n"
         f"$INPUT {input_cols}\n"
         f"$DATA {datapath} IGNORE=@\n"
         f"{sub} ADVAN{case['advan']}{trans}\n"
+        f"{extra}"
         f"$PK\n{pk}\n"
+        f"{des}"
         f"$ERROR\n{err}\n"
         f"{_theta_lines(case.get('ntheta', 8))}\n"
         f"$OMEGA 0.1 0.2\n"
